@@ -4,6 +4,8 @@
 import Yae.SExp
 import Yae.Model.Ty
 import Yae.Model.Unify
+import Yae.Driver.Wire
+import Yae.Driver.Lex
 namespace Yae.Driver
 open Yae SExp
 
@@ -24,6 +26,7 @@ def uerr : UErr → SExp
 
 def handle (req : SExp) : SExp :=
   match req with
+  | .list (.atom "lex" :: _) => (handleLex req).getD (.atom "bad-request")
   | .list [.atom "tyeq", a, b] =>
     match Ty.ofSExp a, Ty.ofSExp b with
     | some a, some b => .list [.atom "ok", encBool (tyEq a b)]
@@ -45,6 +48,22 @@ def handle (req : SExp) : SExp :=
       match inferFun 0 name (TyList.ofList ps) r (TyList.ofList args) with
       | .ok (ps', r') => .list [.atom "ok", .list (ps'.toList.map Ty.toSExp), r'.toSExp]
       | .error e => uerr e
+    | _, _, _, _ => .atom "bad-request"
+  | .list [.atom "check", funs, tvars, e] =>
+    match funsOfSExp funs, tvarsOfSExp tvars, Expr.ofSExp e with
+    | some funs, some tvars, some e =>
+      match check { vars := tvars, funs := funs, reserved := reservedWords } 0 e with
+      | .ok (ty, e', _) => .list [.atom "ok", ty.toSExp, e'.toSExp]
+      | .error err => .list [.atom "err", checkErrToSExp err]
+    | _, _, _ => .atom "bad-request"
+  | .list [.atom "run", .atom mode, funs, vars, ext, e] =>
+    match funsOfSExp funs, varsOfSExp vars, externsOfSExp ext, Expr.ofSExp e with
+    | some funs, some vars, some ext, some e =>
+      let (r, evs) := runEval (mode == "debug") { vars := vars, funs := funs, ext := ext } e
+      let evs := SExp.list (evs.map eventToSExp)
+      match r with
+      | .ok v => .list [.atom "ok", valToSExp v, evs]
+      | .error f => .list [.atom "fail", failToSExp f, evs]
     | _, _, _, _ => .atom "bad-request"
   | _ => .atom "bad-request"
 
